@@ -185,3 +185,21 @@ Proof.
 Qed.
 Goal True. idtac "ASSUMPTIONS-OF C05_example_fixed_file". Abort.
 Print Assumptions C05_example_fixed_file.
+
+(* column 6 and the label field, as the standard has them (F2008 3.3.3): a ZERO or a blank in column 6 starts a
+   statement, it never continues one; blanks anywhere in columns 1-5 are not part of the label.  (Both were wrong in
+   the code -- repaired in /repo b269106 and a8fb4fc -- and the model follows the repaired code.) *)
+From FV Require Import FixedFree.
+Theorem C05_zero_or_blank_in_column_six_starts_a_statement :
+  forall a1 a2 a3 a4 a5 rest,
+    Reader.is_fix_cont (a1 :: a2 :: a3 :: a4 :: a5 :: "0"%char :: rest) = false /\
+    Reader.is_fix_cont (a1 :: a2 :: a3 :: a4 :: a5 :: " "%char :: rest) = false.
+Proof. intros. split; [apply zero_in_column_six_is_an_initial_line|apply blank_in_column_six_is_an_initial_line]. Qed.
+Goal True. idtac "ASSUMPTIONS-OF C05_zero_or_blank_in_column_six_starts_a_statement". Abort.
+Print Assumptions C05_zero_or_blank_in_column_six_starts_a_statement.
+
+Theorem C05_blanks_in_the_label_field_are_not_part_of_the_label :
+  forall a b t, ReaderJoin.blanks b -> Reader.label_chars (a ++ b ++ t) = Reader.label_chars (a ++ t).
+Proof. exact label_chars_blanks. Qed.
+Goal True. idtac "ASSUMPTIONS-OF C05_blanks_in_the_label_field_are_not_part_of_the_label". Abort.
+Print Assumptions C05_blanks_in_the_label_field_are_not_part_of_the_label.
